@@ -24,3 +24,13 @@ def run(ctx):
     sp = ctx.write_scripts("faults", scripts)
     tr = ctx.run_harness("cywrite", sp, name="faults", args=["cap=10", "probes=1", "universe=i10,i5,i2"])
     ctx.validate("CypherWrite_Trace", trace_cfg(8, 1, True), tr, name="faults", corrupt=corrupt_dump)
+    # refused DELETE, sequence-exhaustive (no VIEW, nothing sampled): (:A {k:1})-[:T]->(:B {k:1}) plus 0..2 further relationships on
+    # either end (other type, other direction, parallel, same type to another node, at the far end), then ONE plain
+    # MATCH (n..)-[r:T]->(m..) DELETE <n, r | r, n | n, r, m | m, r, n | r, m | n, m>: a node that keeps a relationship the clause does not
+    # name refuses the statement, and then the relationships it does name must still be there
+    dels = ctx.tlc_gen("MC_CypherWrite", gen("C05DEL", 5, 4, 4, view=False, emit="EmitFaulty", inv=INV, props=PROPS), "delete", timeout=3000)
+    ctx.assume("refused DELETE: graphs of <= 4 nodes / 3 relationships of types T, U around one (:A)-[:T]->(:B); the DELETE names one or "
+               "both end nodes and the matched T relationships, in every order of the names")
+    sp = ctx.write_scripts("delete", dels)
+    tr = ctx.run_harness("cywrite", sp, name="delete", args=["cap=10", "probes=1", "universe=i1,i2"])
+    ctx.validate("CypherWrite_Trace", trace_cfg(6, 5, True), tr, name="delete", corrupt=corrupt_dump)
